@@ -35,7 +35,22 @@ pub fn run(cfg: &Cfg, log: &mut Log) {
         log.count("roots", 1);
         let class = ty_class(&rc.ty);
         let odd = model::layout::has_odd_unit(&rc.ty);
-        for v in values(&rc, cfg.seed, nvals) {
+        if odd {
+            log.count("roots_with_non_power_of_two_unit", 1);
+        }
+        let mut vals = values(&rc, cfg.seed, nvals);
+        if rc.name.starts_with("d::Pre<") {
+            // sweep the length of the prefix so that the block after it starts
+            // at every residue modulo its unit
+            let base = vals[0].clone();
+            for l in 0..64 {
+                if let model::Val::Struct(f) = &base {
+                    vals.push(model::Val::Struct(vec![model::Val::Str("p".repeat(l)), f[1].clone()]));
+                    log.count("prefix_sweep_values", 1);
+                }
+            }
+        }
+        for v in vals {
             log.begin(rc.name);
             log.count("evaluations", 1);
             let mut evs = vec![];
@@ -72,11 +87,9 @@ pub fn run(cfg: &Cfg, log: &mut Log) {
                         let unit = (*unit_raw).max(1);
                         let mut bad = vec![];
                         if !unit.is_power_of_two() {
-                            if !odd {
-                                bad.push(format!("unit {} is not a power of two", unit));
-                            } else {
-                                log.count("align_events_non_power_of_two_unit", 1);
-                            }
+                            log.count("align_events_non_power_of_two_unit", 1);
+                            log.violation("C07", "C07/unit-not-power-of-two", rc.name, Some(&v),
+                                format!("align::<{}>: the alignment unit is {} (size_of of a range over a {}-byte type), which is not a power of two; padding and the address check of the ε-copy reader are then ill-defined", ty, unit, unit), vec![]);
                         } else {
                             if unit < *align_of {
                                 bad.push(format!("unit {} smaller than the native alignment {}", unit, align_of));
